@@ -41,7 +41,10 @@ PrefixOk(ms) == \A i \in 1..Len(ms) : ms[i] \in Positional =>
 \* rename: the FIRST argument is published under another name than its Python parameter (_in_variable_names);
 \* members stay in parameter order, keyword callers and the wire use the public name
 Cases ==
-  { c \in [style : Styles, ret : Rets, modes : UNION {[1..n -> Modes] : n \in 0..3}, rename : BOOLEAN] :
+  \* dflt: every argument's TYPE declares a default value (Dflt(i)): an argument that is not passed is that value, on both paths
+  { c \in [style : Styles, ret : Rets, modes : UNION {[1..n -> Modes] : n \in 0..3}, rename : BOOLEAN, dflt : BOOLEAN] :
+      /\ (c.dflt => (c.style = "wrapped" /\ ~c.rename /\ c.ret \in {"one", "none"} /\ Len(c.modes) >= 1
+                      /\ \A i \in 1..Len(c.modes) : c.modes[i] \in {"pos", "kw", "absent", "kwzero"}))
       /\ (c.rename => (c.style = "wrapped" /\ Len(c.modes) >= 2 /\ c.ret \in {"one", "none"}))
       /\ (c.ret = "ignored_two" => c.style = "wrapped")
       /\ PrefixOk(c.modes)
@@ -55,10 +58,11 @@ Cases ==
       /\ ((\E i \in 1..Len(c.modes) : c.modes[i] \in {"both", "kwnil", "kwzero", "poszero"}) => c.ret \in {"one", "none"}) }
 
 \* NullPack / what the client sends: the value that must reach the function in slot i
+Dflt(i) == 70 + i
 Packed(c) == [i \in 1..Len(c.modes) |->
                 CASE c.modes[i] \in {"pos", "kw", "both", "kwnil"} -> Val(i)
                   [] c.modes[i] \in {"kwzero", "poszero"} -> 0
-                  [] OTHER -> Nil]
+                  [] OTHER -> IF c.dflt THEN Dflt(i) ELSE Nil]
 \* the native result both paths must deliver (generators are compared as lists)
 R1 == 7   R2 == 8   R3 == 9
 Result(c) == CASE c.ret = "none"    -> <<"value", <<>>>>
